@@ -52,11 +52,14 @@ pub struct P {
     /// (a concolic prefix pins "fee is non-zero" decisions of its witness: the zero-fee regions
     /// have to be the witness of a scenario of their own)
     pub fee_seed: u8,
+    /// the owner lowers the base-asset holding cap (to one unit) and the open-interest cap after
+    /// the positions were opened, before the transaction(s) under test
+    pub caps_lowered: bool,
 }
 
 impl P {
     pub fn new(prop: &'static str, side: Side, seed: u64) -> P {
-        P { prop, native: false, dec: 9, fees: false, side, wide: false, seed, partial_sym: false, full_prefix: false, concrete_prefix: false, sym_lev: false, sym_lim: false, sym_ratios: false, bystanders: prop == "C10", sym_oracle: false, sym_counter: false, fault: None, real_feed: false, with_trend: false, attached: false, sym_funds: false, paused: false, vamm_ins_outsider: false, fee_seed: 0 }
+        P { prop, native: false, dec: 9, fees: false, side, wide: false, seed, partial_sym: false, full_prefix: false, concrete_prefix: false, sym_lev: false, sym_lim: false, sym_ratios: false, bystanders: prop == "C10", sym_oracle: false, sym_counter: false, fault: None, real_feed: false, with_trend: false, attached: false, sym_funds: false, paused: false, vamm_ins_outsider: false, fee_seed: 0, caps_lowered: false }
     }
     pub fn native(mut self) -> P {
         self.native = true;
@@ -196,6 +199,10 @@ impl P {
         self.fee_seed = 2;
         self
     }
+    pub fn caps_lowered(mut self) -> P {
+        self.caps_lowered = true;
+        self
+    }
     pub fn paused(mut self) -> P {
         self.paused = true;
         self
@@ -242,6 +249,7 @@ impl P {
             + if self.attached { ".attached" } else { "" }
             + if self.sym_funds { ".symfunds" } else { "" }
             + ["", ".toll0", ".spread0"][self.fee_seed as usize]
+            + if self.caps_lowered { ".caps-lowered" } else { "" }
             + if self.paused { ".paused" } else { "" }
             + if self.vamm_ins_outsider { ".vamm-ins-outsider" } else { "" }
     }
@@ -300,7 +308,16 @@ pub fn t_open2(p: P, second_same: bool) -> impl Fn() {
         let l2 = p.tx_lev("l2", d, 2 + (p.seed % 3) as u128);
         let lim = p.tx_lim("lim2", d);
         let side2 = if second_same { p.side.clone() } else { opp(&p.side) };
-        let f = if second_same { funds_for(&r, &p, m2, l2) } else { None };
+        let f = if p.native && p.sym_funds {
+            // the coins attached to the order are a variable of their own: the engine accepts
+            // exactly one value, which the oracles compare with margin + both fees (- what the
+            // closed leg of a reversal releases)
+            Some(amount("nf", d, false, 30))
+        } else if second_same {
+            funds_for(&r, &p, m2, l2)
+        } else {
+            None
+        };
         r.step(Op::Open { who: ALICE, side: side2, margin: m2, lev: l2, limit: lim, funds: f });
     }
 }
@@ -380,6 +397,9 @@ pub fn t_liq(p: P, regime: u128) -> impl Fn() {
         }
         if p.paused {
             assert!(r.w.engine_exec(OWNER, &margined_perp::margined_engine::ExecuteMsg::SetPause { pause: true }).ok);
+        }
+        if p.caps_lowered {
+            assert!(r.w.update_vamm(0, Some(Uint128::new(d)), Some(Uint128::new(d)), None, None, None, None).ok);
         }
         symrt::set_full(true);
         let lim = p.tx_lim("qlim", d);
@@ -461,6 +481,26 @@ pub fn t_fund(p: P, then: u8) -> impl Fn() {
                 let m3 = amount("m3", d, false, 5);
                 let f = funds_for(&r, &p, m3, l1);
                 r.step(Op::Open { who: ALICE, side: p.side.clone(), margin: m3, lev: l1, limit: Uint128::zero(), funds: f });
+            }
+            5 => {
+                // increase after the settlement, then close (the whole life of the position spans
+                // the settlement and a size change)
+                let m3 = amount("m3", d, false, 5);
+                let f = funds_for(&r, &p, m3, l1);
+                r.step(Op::Open { who: ALICE, side: p.side.clone(), margin: m3, lev: l1, limit: Uint128::zero(), funds: f });
+                r.w.next_block(15);
+                r.step(Op::Close { who: ALICE, limit: Uint128::zero() });
+            }
+            6 => {
+                // a position opened AFTER the settlement (cumulative fraction already non-zero),
+                // reduced and closed
+                let m3 = amount("m3", d, false, 12);
+                let f = funds_for(&r, &p, m3, l1);
+                r.step(Op::Open { who: CAROL, side: p.side.clone(), margin: m3, lev: l1, limit: Uint128::zero(), funds: f });
+                r.w.next_block(15);
+                let m4 = amount("m4", d, false, 4);
+                r.step(Op::Open { who: CAROL, side: opp(&p.side), margin: m4, lev: l1, limit: Uint128::zero(), funds: None });
+                r.step(Op::Close { who: CAROL, limit: Uint128::zero() });
             }
             3 => {
                 // opposite side: reduce or reverse depending on the symbolic size
